@@ -3,7 +3,7 @@
 import json, re
 idx = {e['name']: e for e in json.load(open('/verif/mutants/index.json'))}
 res = {}
-for l in open('/tmp/mutant-results.log'):
+for l in open(__import__('os').environ.get('MUTANT_LOG','/tmp/mutant-results.log')):
     m = re.match(r'(CAUGHT|MISSED|HARNESS-ERROR|MUTANT-DOES-NOT-BUILD|PATCH-DOES-NOT-APPLY) (\S+)\.patch (C\d+)?(.*)', l)
     if m:
         clause = re.search(r'clause=([\w<>=!\-]+)', m.group(4) or '')
